@@ -524,6 +524,8 @@ def plugin_trees(r):
         big = {"name": "Pbig", "fields": [{"name": "n", "id": 0, "type": ("struct", "Pin")}, {"name": "a", "id": 1, "type": ("u", total - 33)}]}
         extra, enums = [inner, big], []
     out.append((T([can("Pbig", "Pbig", a)], extra, enums), "can-size-%d-%s" % (total, where)))
+    # a CAN message of zero bits (its only field is an array of length 0) fits any frame
+    out.append((T([can("Pz", "Pz", a)], [{"name": "Pz", "fields": [{"name": "pad", "id": 0, "type": ("arr", ("u", 8), 0)}]}]), "can-size-0-empty-array"))
     # exactly one bit over, the odd bit being an enum with a single enumerator valued 0 (and its 64-bit twin)
     one = {"name": "Pone", "values": [("only", 0)]}
     for tot in (64, 65):
